@@ -65,7 +65,7 @@ fn step<const FILL: usize, const N: usize>() {
  "desc": "one-step simulation of the 7.3 record splitter: the decoder buffers, completes and returns the tail exactly as the reference; by induction over chunks every segmentation yields the same records (shapes enumerated, contents decided by the solver)",
  "encodes": ["http_icmp_codec::Decoder::on_message_chunk"],
  "quick": "[(0,1),(0,22),(0,23),(0,24),(0,26),(1,1),(1,21),(1,22),(1,25),(11,11),(11,12),(11,14),(22,1),(22,3)]",
- "thorough": "[(f,n) for f in range(0,23) for n in range(1,28)]"}
+ "thorough": "[(f,n) for f in range(0,23,2) for n in range(1,28,3)] + [(f,23-f) for f in range(1,23)] + [(f,24-f) for f in range(1,23)]"}
 @*/
 
 /*@gen
